@@ -962,6 +962,12 @@ func checkReplyChanConsumers(c *Ctx, funcs []*ssa.Function) {
 					}
 					c.see(fn)
 					key := "reply-consumer@" + funcName(fn)
+					if !allowed[funcName(fn)] && !x.Blocking && chanFromWaiterTable(c.P, cs.State.Chan) && tableHoldsOnlyUnanswered(c.P) {
+						// Since D13 the reader takes a waiter out of the table when it delivers its reply: a channel found IN the
+						// table is still empty, so a non-blocking receive on it (e.g. a drain on close) takes no reply away.
+						c.ok(key, instrPos(in), "non-blocking receive on a channel still in the waiter table (empty by construction)")
+						continue
+					}
 					if !allowed[funcName(fn)] {
 						c.fail(key, instrPos(in), "%s receives from a reply channel: only the exchange that registered the channel may take a reply out of it (here a delivered reply is taken away from its waiting caller, who then reports a timeout or the close error)", funcName(fn))
 						continue
@@ -1286,15 +1292,7 @@ func checkAttemptOutcome(c *Ctx) {
 				return
 			}
 			n++
-			stored := false
-			eachInstr(g, func(x ssa.Instruction) {
-				if st, ok := x.(*ssa.Store); ok {
-					if k, _ := fieldKey(st.Addr); k == cf.errField && instrDominates(x, in) {
-						stored = true
-					}
-				}
-			})
-			if !stored {
+			if !closeErrStoredFor(c.P, g, in, cf.errField) {
 				good = false
 			}
 		})
@@ -1521,4 +1519,63 @@ func checkDoneCaseReportsOwnCtx(c *Ctx, funcs []*ssa.Function) {
 			}
 		})
 	}
+}
+
+
+// chanFromWaiterTable: v is an element of TraditionalDnsConn.queue obtained by ranging over / indexing the table.
+func chanFromWaiterTable(p *Prog, v ssa.Value) bool {
+	qk := relTransport + ".TraditionalDnsConn.queue"
+	tr := p.newTracer()
+	tr.throughCalls, tr.throughFields, tr.throughParams = false, false, false
+	os := tr.origins(v)
+	if len(os) == 0 {
+		return false
+	}
+	for _, o := range os {
+		switch x := o.(type) {
+		case *ssa.Extract:
+			nx, ok := x.Tuple.(*ssa.Next)
+			if !ok {
+				return false
+			}
+			rg, ok := nx.Iter.(*ssa.Range)
+			if !ok {
+				return false
+			}
+			if k, okk := loadedField(rg.X); !okk || k != qk {
+				return false
+			}
+		case *ssa.Lookup:
+			if k, okk := loadedField(x.X); !okk || k != qk {
+				return false
+			}
+		default:
+			return false
+		}
+	}
+	return true
+}
+
+// tableHoldsOnlyUnanswered: the reader removes a waiter from the table in the same step in which it obtains its channel
+// for delivery (the take idiom, checked in detail by checkWaiterLifetime).
+func tableHoldsOnlyUnanswered(p *Prog) bool {
+	rl := p.Func(relTransport, "TraditionalDnsConn", "readLoop")
+	if rl == nil {
+		return false
+	}
+	found := false
+	eachInstr(rl, func(in ssa.Instruction) {
+		ci, ok := in.(*ssa.Call)
+		if !ok {
+			return
+		}
+		sc := staticCallee(ci)
+		if sc == nil {
+			return
+		}
+		if claimingTake(p, sc, in, relTransport+".TraditionalDnsConn.queue") == "" {
+			found = true
+		}
+	})
+	return found
 }
